@@ -386,7 +386,11 @@ class Report:
             known_findings_reproduced=n_known, timings_s=self.timings,
         )
         if self.exhaustive is not None:
-            cov["exhaustive"] = self.exhaustive
+            if isinstance(self.exhaustive, bool):
+                cov["exhaustive"] = self.exhaustive
+            else:       # only a finite SUB-space was enumerated completely: described, not claimed
+                cov["exhaustive"] = False
+                cov["exhaustively_enumerated_subspace"] = self.exhaustive
         cov.update(self.extra)
         ev = dict(property_id=self.pid, tier=self.tier, seed=self.seed, level="proof", coverage=cov,
                   assumptions=self.assumptions, wall_s=round(time.time() - self.t0, 2),
